@@ -19,7 +19,7 @@ pub mod sim;
 pub use sim::rt::spawn;
 
 pub mod task {
-    pub use crate::sim::rt::{spawn, JoinError, JoinHandle};
+    pub use crate::sim::rt::{spawn, AbortHandle, JoinError, JoinHandle};
     pub use tokio_real::task::*;
 }
 
